@@ -416,6 +416,8 @@ def constructions(facts, adt_pat, variant=None, crate=None):
     """P3: aggregate construction sites of an ADT (variant)"""
     res = []
     for b in facts.code_bodies(crate):
+        if b.trait.endswith('::Clone'):
+            continue  # derived Clone re-constructs every variant; never a semantic construction site
         live = b.live_blocks()
         for i, j, pl, rv, line in b.assigns():
             if i not in live:
@@ -524,3 +526,35 @@ def flows_always(facts, producer, sink_pats, via_field=None, depth=2):
         if p is not None:
             return sinks, p
     return sinks, None
+
+
+# --------------------------------------------------------------------------
+# path partition (P11)
+# --------------------------------------------------------------------------
+
+def reach_under(facts, body, assume, start=0, avoid=()):
+    """blocks reachable from `start` when branches on the named bool locals in `assume` ({name: bool}) only take the
+    consistent edge (copies and Not propagated through the stop_named describer)."""
+    brs = {br.bb: br for br in branches(facts, body, stop_named=True)}
+    avoid = set(avoid)
+    seen = set()
+    stack = [start]
+    while stack:
+        b = stack.pop()
+        if b in seen or b in avoid:
+            continue
+        seen.add(b)
+        succ = body.succ[b]
+        br = brs.get(b)
+        if br is not None:
+            inner, neg = peel_not(br.desc)
+            if inner[0] == 'local' and inner[2] in assume:
+                val = assume[inner[2]]
+                if neg:
+                    val = not val
+                t = br.target(1 if val else 0)
+                succ = [t] if t in succ else succ
+        for s in succ:
+            if s not in seen:
+                stack.append(s)
+    return seen
